@@ -74,6 +74,7 @@ func vfServerFactory(br vfBridge) (base.ServerFactory, error) {
 // vfClientArgs parses a bridge line (cert or legacy form) through the public
 // client factory.
 func vfClientArgs(br vfBridge, legacy bool, iat int) (base.ClientFactory, any, error) {
+	vfSetBias(br.Biased) // the flag is process-wide: client and bridge of one case agree on it
 	cf, err := (&Transport{}).ClientFactory("")
 	if err != nil {
 		return nil, nil, err
